@@ -7,25 +7,35 @@ RUN_MODULE = "RunC13"
 DRIVER = "equalizer_sim.py"
 SHARD = 400
 RULE = ("one case = one dedicated-process comparison run of the real Equalizer over simulated multiprocessing: a script "
-        "with worker exits (status 0 / 1), hangs (killable / ignoring SIGTERM), dropped answers and slow replays at "
+        "with worker exits (status 0 / 1), hangs (killable / ignoring SIGTERM), dropped answers, slow replays, answers "
+        "the parent cannot use (its get raises while loading the item / the worker answers (False, message): the "
+        "worker stays in place) and idle workers dying between two replays at "
         "every position (first, last, consecutive, on recycle boundaries), recycle rates 0-7, timeouts 0-3 s, consumed "
         "fully / closed after n / consumer raising after n / id source raising after n; observed: polls per task, "
         "tasks per worker, state of every worker when the generator stops and after the idle worker's next poll, "
-        "births/deaths/kills; non-trivial = at least one fault or an abandoned run; distinct = distinct case")
+        "births/deaths/kills, where the parent blocks if it does; quick tier also two real-process anchor scripts "
+        "(unloadable answers; idle worker SIGKILLed between replays); non-trivial = at least one fault, unusable "
+        "answer or an abandoned run; distinct = distinct case")
 EXHAUSTIVE = {"quick": False, "thorough": True}
 ASSUMPTIONS = ["os.kill(pid, SIGKILL) succeeds and ends the worker (kill_succeeds); a kill that fails with OSError "
                "leaves a live forgotten worker by construction (equalizer.py:269-274)",
                "an idle worker sees the terminate flag at its next 50 ms poll and exits (one modelled step)",
+               "an idle worker that dies (killed by the parent at the timeout, or by somebody else between two "
+               "replays) dies inside the last blocking call it made: in Queue.get(True, t) it leaves that queue's "
+               "read lock held, in Event.wait(t) it stays a registered sleeper of the event and the next Event.set() "
+               "blocks for ever (multiprocessing/synchronize.py Condition.wait / notify; both reproduced on real "
+               "processes); deaths inside the few microseconds of a non-blocking call are not sampled",
                "one modelled poll = one second of the fake clock; real wall time, zombies and signal delivery are "
                "runtime residue (sampled by the real-process scripts of the thorough tier)",
                "closing / dropping a suspended generator runs its finally block (Python semantics)"]
 TRUSTED = ["fake multiprocessing / clock / kill (harness/impl/fake_mp.py) under the real Equalizer",
-           "real-process scripts (thorough tier) are checked by the direct predicate only; a timing anomaly must "
-           "reproduce three times"]
+           "real-process scripts (thorough tier; two of them also in the quick tier) are checked by the direct "
+           "predicate only; an anomaly must reproduce three times; a parent that blocks for ever is interrupted by "
+           "a SIGALRM watchdog after 15 s"]
 
 ALPHA = ["equal", "different", "player_raises", "extractor_raises", "exit0", "exit1", "hang", "hang_deaf",
-         "slow:1", "slow:2", "slow:3", "slow:4", "slow:5"]
-W = [22, 3, 3, 3, 9, 9, 10, 8, 3, 3, 3, 3, 2]
+         "slow:1", "slow:2", "slow:3", "slow:4", "slow:5", "unloadable", "put_raises"]
+W = [22, 3, 3, 3, 9, 9, 10, 8, 3, 3, 3, 3, 2, 8, 4]
 
 
 def generate(rng, tier):
@@ -45,6 +55,29 @@ def generate(rng, tier):
             if tier != "quick" or n == maxlen:
                 k = (sum(map(len, behs)) + rate) % (n + 1)
                 cases.append(G.mk(ids, behs, rate=rate, timeout=1, consume=(["close", "raise", "iter_raises"][(k + rate) % 3], k)))
+    # replays whose failure leaves the worker in place (answer the parent cannot load, (False, message) answer,
+    # raising stage) at every position of a recycle period: ages must still advance
+    stay = ["equal", "unloadable", "put_raises", "player_raises"]
+    for ids, behs in G.exhaustive(stay, 3 if tier == "quick" else 5):
+        n = len(ids)
+        if n >= 2 and any(b != "equal" for b in behs):
+            for rate in ((1, 2) if tier == "quick" else (1, 2, 3)):
+                cases.append(G.mk(ids, behs, rate=rate, timeout=1 + n % 2, keep=bool(n % 2), probe="worker-stays"))
+    # an idle worker that dies - between two replays (dies_before: first, last, after a fault, right after a recycle)
+    # or killed at the timeout because its answer never arrived (drops): what it leaves behind where it slept
+    # (queue lock, event sleeper) must not stop the run, the next recycle or the clean-up
+    idle = ["equal", "dies_before", "drops", "exit0"]
+    for ids, behs in G.exhaustive(idle, 3 if tier == "quick" else 4):
+        n = len(ids)
+        if any(b in ("dies_before", "drops") for b in behs):
+            for rate in (1, 2, 3):
+                if rate == 3 and (tier == "quick" or n < 3):
+                    continue
+                cases.append(G.mk(ids, behs, rate=rate, timeout=1, probe="idle-death"))
+                if n == 3:
+                    k = (sum(map(len, behs)) + rate) % (n + 1)
+                    cases.append(G.mk(ids, behs, rate=rate, timeout=1, probe="idle-death",
+                                      consume=(["close", "raise", "iter_raises"][(k + rate) % 3], k)))
     # probe stream for the known finding F08: a late answer can make the run block forever / leak a hung worker
     n_probe = 20 if tier == "quick" else 300
     for k in range(n_probe):
@@ -55,9 +88,8 @@ def generate(rng, tier):
         cases.append(G.mk(ids, behs, rate=rng.choice([1, 1, 2, 3]), timeout=rng.choice([1, 2]),
                           consume=G.rand_consume(rng, len(ids)), probe="F08"))
     cases.append(G.mk([1, 2, 3], ["late", "hang", "equal"], rate=1, probe="F08"))     # the refuted theorem's witness
-    if tier != "quick":
-        from lib import eqreal
-        cases += eqreal.real_cases("C13")
+    from lib import eqreal
+    cases += eqreal.real_cases("C13", tier)
     return cases
 
 
@@ -102,8 +134,8 @@ def direct(case, obs):
     cmps = obs["cmps"]
     # (1) the run finishes and continues after every fault
     if obs["outcome"] == "deadlock":
-        fails.append((sig("run-blocks-forever"), "parent blocks forever after %d of %d recordings (join of a hung worker)"
-                      % (len(cmps), n)))
+        fails.append((sig("run-blocks-forever"), "parent blocks forever after %d of %d recordings (%s)"
+                      % (len(cmps), n, obs.get("why") or "join of a hung worker")))
     elif obs["outcome"] in ("abort-exit", "blocks"):
         fails.append(("run-aborted", "run ended with %s" % obs["outcome"]))
     elif len(cmps) != n:
@@ -159,8 +191,8 @@ def features(case):
 
 
 def nontrivial(case):
-    return any(G.fatal_dedicated(G.beh_of(case, i), case["timeout"]) for i in case["ids"]) or \
-        case.get("consume", ["full"])[0] != "full"
+    return any(G.fatal_dedicated(G.beh_of(case, i), case["timeout"]) or G.beh_of(case, i) in G.ANSWER_BEH
+               for i in case["ids"]) or case.get("consume", ["full"])[0] != "full"
 
 
 def shrink_candidates(case):
@@ -179,7 +211,7 @@ def search_harder(rng, bad_cases):
 
 MANIFEST = dict(
     design_ref='6/C13',
-    text="Coq theorems over all scripts, recycle rates, timeouts and abandonment points about the same hand-written model of the equalizer's dispatch / wait / timeout / recycle logic and worker loop as C08: the wait for one result performs at most timeout+1 one-second polls and never runs out of fuel (for every script, late answers included); for scripts of hangs, exits and slow answers the run always completes, its modelled duration is the sum of the per-recording costs, after a fault no worker is alive and the next recording is served by a worker that has served nothing else, no worker takes more than max(1, rate) tasks, and after completion or abandonment after any number of yields every worker is dead or idle-and-told-to-terminate and dead after one more step; the late-answer case (parent blocks forever in join, hung worker leaked) is refuted with a witness (known finding F08). Tie: the REAL Equalizer over fake multiprocessing/clock/kill; the full trace (polls per task, tasks per worker, worker states, births/deaths/kills, queue leftovers, flag, clock) is compared with the model by vm_compute; direct predicate on the simulator's observables and, in the thorough tier, on real processes (no active children within ~1 s after completion/abandonment, tasks per worker pid <= rate, wall time per comparison bounded).",
+    text="Coq theorems over all scripts, recycle rates, timeouts and abandonment points about the same hand-written model of the equalizer's dispatch / wait / timeout / recycle logic and worker loop as C08: the wait for one result performs at most timeout+1 one-second polls and never runs out of fuel (for every script, late answers included); for scripts of hangs, exits, slow answers and answers the parent cannot use (unloadable item, (False, message)) the run always completes, its modelled duration is the sum of the per-recording costs, after a fault no worker is alive and the next recording is served by a worker that has served nothing else, no worker takes more than max(1, rate) tasks, and after completion or abandonment after any number of yields every worker is dead or idle-and-told-to-terminate and dead after one more step; the late-answer case (parent blocks forever in join, hung worker leaked) is refuted with a witness (known finding F08). Tie: the REAL Equalizer over fake multiprocessing/clock/kill; the full trace (polls per task, tasks per worker, worker states, births/deaths/kills, queue leftovers, flag, clock) is compared with the model by vm_compute; the simulator also tracks where an idle worker sleeps (a worker that dies inside Queue.get leaves the read lock held, one that dies inside Event.wait stays a registered sleeper and the next Event.set blocks forever), with streams of idle deaths (worker dies before taking its task, idle worker killed at the timeout) and of failures that leave the worker in place at every position of short runs; direct predicate on the simulator's observables and, in the thorough tier (two anchor scripts also in the quick tier), on real processes (no active children within ~1 s after completion/abandonment, tasks per worker pid <= rate, wall time per comparison bounded).",
     note='Trusted: Coq kernel + vm_compute; hand-written model; the scheduling implemented by the fake multiprocessing layer; os.kill(SIGKILL) succeeds; real wall time, zombies and signal delivery are not claimed by theorem (real-process scripts sample them, an anomaly must reproduce three times).',
     technique='Coq proof (invariant over the parent loop, measure on the wait loop) + model/implementation correspondence by vm_compute over a deterministic multiprocessing simulator + real-process sampling',
 )
